@@ -379,6 +379,65 @@ theorem transport_attribution (B : Nat) (q : ConnReq) (st : TState) :
         · exact Or.inl h
         · exact Or.inr (Or.inr h)
 
+/-- **transport_single_connection.** Through the Transport, on ONE scripted connection that the
+peer keeps open, the requests get exactly what the connection-level read loop (`connTimed`)
+delivers, and every request after the connection has ended fails (no other connection is
+scripted): the Transport layer adds nothing to and takes nothing from a connection's
+deliveries.  (This is what ties `connTimed`, and through `timed_agrees_with_sequence`
+`connSequence`, to the lane that runs `transportRun` against the real Transports.) -/
+theorem transport_single_connection (B : Nat) (reqs : List ConnReq) (segs : List Bytes) (n : Nat) :
+    (transportRun B reqs ⟨some (segs, false), [], n⟩).1 =
+      connTimed B reqs segs ++
+        List.replicate (reqs.length - (connTimed B reqs segs).length) Delivery.fail := by
+  have hdead : ∀ (reqs : List ConnReq) (n : Nat),
+      (transportRun B reqs ⟨none, [], n⟩).1 = List.replicate reqs.length Delivery.fail := by
+    intro reqs
+    induction reqs with
+    | nil => intro n; rfl
+    | cons q qs ih =>
+      intro n
+      simp only [transportRun, transportStep, dialAndServe, List.length_cons, List.replicate_succ]
+      rw [ih]
+  induction reqs generalizing segs n with
+  | nil => simp [transportRun, connTimed]
+  | cons q qs ih =>
+    cases segs with
+    | nil =>
+      simp only [transportRun, transportStep, serveOn, connTimed, Bool.false_eq_true, if_false,
+        List.nil_append, List.length_nil, Nat.sub_zero, List.length_cons, List.replicate_succ]
+      rw [hdead]
+    | cons seg rest =>
+      by_cases hempty : seg.isEmpty = true
+      · have hnil : seg = [] := List.isEmpty_iff.mp hempty
+        subst hnil
+        have hx : exchange B q [] = (Delivery.fail, none) := by
+          simp [exchange, parseFinalHead, parseHead, readLine]
+        simp only [transportRun, transportStep, serveOn, List.isEmpty_nil, if_true,
+          Bool.false_eq_true, if_false, connTimed, hx, List.length_cons, List.length_nil]
+        rw [hdead]
+        simp
+      · have hne : seg.isEmpty = false := by simpa using hempty
+        cases hx : exchange B q seg with
+        | mk d o =>
+          by_cases ho : o = some []
+          · subst ho
+            simp only [transportRun, transportStep, serveOn, hne, Bool.false_eq_true, if_false, hx,
+              Bool.and_false, Option.map_some, connTimed, List.cons_append, List.length_cons,
+              Nat.add_sub_add_right]
+            rw [ih]
+          · have hstop : connTimed B (q :: qs) (seg :: rest) = [d] := by
+              rw [connTimed, hx]
+              match o, ho with
+              | none, _ => rfl
+              | some (_ :: _), _ => rfl
+              | some [], h => exact absurd rfl h
+            have hserve : serveOn B q (seg :: rest) false = some (d, none) := by
+              simp only [serveOn, hne, Bool.false_eq_true, if_false, hx]
+            simp only [transportRun, transportStep, hserve, Option.map_none, hstop,
+              List.length_cons, List.length_nil, List.cons_append, List.nil_append]
+            rw [hdead]
+            simp
+
 /-- Every request gets exactly one delivery. -/
 theorem transport_one_delivery_per_request (B : Nat) (reqs : List ConnReq) (st : TState) :
     (transportRun B reqs st).1.length = reqs.length := by
